@@ -58,6 +58,7 @@ class Gen:
         self.cfg = cfg
         self.n = 0
         self.freed = []  # names freed by deletions (for re-use)
+        self.freed_rails = []  # rail names dropped by edits (for re-use)
         self.last_table = None  # set by the session: {name: row} of last solve
 
     # ------------------------------------------------------------------
@@ -82,6 +83,12 @@ class Gen:
         return "%s%d_%d" % (prefix, self.n, self.r.randint(1000, 9999))
 
     def fresh_rail(self, m):
+        # sometimes re-use a rail name that an earlier edit dropped
+        pool = [r for r in self.freed_rails if m is None or r not in m.used_names()]
+        if pool and self.r.chance(0.3):
+            r = self.r.pick(pool)
+            self.freed_rails.remove(r)
+            return r
         return self.fresh("R_", m)
 
     # ------------------------------------------------------------------
@@ -572,6 +579,13 @@ class Gen:
         sub = self.r.sample(phs, self.r.randint(1, len(phs)))
         sub = [p for p in phs if p in sub]
         if k in LIST_PHASE_KINDS:
+            if self.r.chance(0.15):
+                # a list may name phases the system does not (yet) define:
+                # the component is then simply not active in the defined ones
+                foreign = [p for p in PHASE_NAMES + ["night"] if p not in phs]
+                if foreign:
+                    extra = self.r.pick(foreign)
+                    sub = [extra] if self.r.chance(0.4) else sub + [extra]
             return {"op": "set_comp_phases", "name": n, "conf": sub}
         s = m.comps[n]
         si = self.scale_i()
